@@ -405,6 +405,13 @@ func vGenContainer(kind, shape int) (container, *vDesc) {
 			return vGenArrayBackbone(4096, 0, 16)
 		case shape >= 21 && shape <= 24:
 			return vGenArrayAnchored(shape - 20)
+		case shape >= 31 && shape <= 34:
+			// A(n) whose backing slice has spare capacity (as after a growing append or a shrinking in-place op)
+			ac, d := vGenArray(shape - 30)
+			big := make([]uint16, len(ac.content), 2*len(ac.content)+4)
+			copy(big, ac.content)
+			ac.content = big
+			return ac, d
 		}
 	case vKRun:
 		switch {
@@ -424,6 +431,10 @@ func vGenContainer(kind, shape int) (container, *vDesc) {
 			return vGenRunAnchored([]int{58, 66})
 		case shape == 25:
 			return vGenRunAnchored([]int{58, 66, 4150, 4170})
+		case shape == 26:
+			return vGenRunAnchored([]int{65512, 65528}) // may end exactly at 65535
+		case shape == 27:
+			return vGenRunAnchored([]int{0, 8}) // may start exactly at 0
 		}
 	case vKBitmap:
 		switch shape {
